@@ -419,6 +419,8 @@ struct LineCtx<'a> {
     qs: bool,
     qe: bool,
     now: u64,
+    /// the event pushed was decoded from real wire bytes (closed loop), not built from the stimulus text
+    injected: bool,
 }
 
 struct Oracle {
@@ -453,6 +455,11 @@ struct Oracle {
     reported_hang: bool,
     /// the latest connection event the event loop returned from `poll` was an Offline
     polled_offline_last: bool,
+    // C15 (component `eon` only: synthetic NCMDs whose content the stimulus names)
+    cooldown_ms: u64,
+    /// wall time of the last Node Control/Rebirth request that got past the cooldown test (0 = never);
+    /// None once a request was handled on a line that did not start and end quiescent
+    last_rebirth_req: Option<u64>,
 }
 
 impl Oracle {
@@ -483,6 +490,8 @@ impl Oracle {
             clear_since: None,
             reported_hang: false,
             polled_offline_last: false,
+            cooldown_ms: 0,
+            last_rebirth_req: Some(0),
         }
     }
 
@@ -868,6 +877,35 @@ impl Oracle {
                 }
             }
         }
+        // C15: a valid rebirth request (unaliased Node Control/Rebirth = true, payload timestamp) received
+        // by a birthed node outside the cooldown - which only an earlier NCMD request starts - is honoured
+        // with an NBIRTH; inside the cooldown, or unbirthed, nothing is born. Decidable on lines that start
+        // and end quiescent.
+        if verb == "new" {
+            self.cooldown_ms = kv(w, "cd").and_then(|x| x.parse().ok()).unwrap_or(0);
+        }
+        if verb == "ncmd" && !c.injected {
+            let valid = kv(w, "rb") == Some("1") && kv(w, "ts") == Some("1") && !w.contains(&"alias=1");
+            let handled = has_note("CB:ncmd");
+            if !(c.qs && c.qe) || x0 || cancelled0 {
+                if valid {
+                    self.last_rebirth_req = None;
+                }
+            } else if let (true, true, Some(last)) = (valid, handled, self.last_rebirth_req) {
+                let t = 1_000_000 + c.now - 1; // the wall clock while this line ran (line i runs at 1_000_000 + i + advs)
+                let outside = t.saturating_sub(last) >= self.cooldown_ms;
+                let nbirths = c.evs.iter().filter(|e| matches!(e, Ev::Call { kind: Kind::NBirth, .. })).count();
+                if outside {
+                    self.last_rebirth_req = Some(t);
+                }
+                if outside && node_ok0 && nbirths == 0 {
+                    out.fail("C15:rebirth-honoured", "birthed-outside-cooldown", format!("no NBIRTH although the node was birthed and the last honoured request was at {} (cooldown {} ms, now {}); {}", last, self.cooldown_ms, t, here));
+                }
+                if (!outside || !node_ok0) && nbirths != 0 {
+                    out.fail("C15:no-birth", if outside { "unbirthed" } else { "inside-cooldown" }, here.clone());
+                }
+            }
+        }
         // C04 "exactly when": decidable on lines that start and end fully quiescent (nothing
         // parked, no callback held) before any cancel
         if c.qs && c.qe && !cancelled0 && !self.cancelled && !x0 {
@@ -1066,7 +1104,7 @@ impl Sess {
         out.begin_case(&sess.first_line, "ok");
         let stim = format!("new cd={}", cd);
         let w: Vec<&str> = stim.split(' ').collect();
-        let ctx = LineCtx { stim: &stim, w: &w, evs: &evs, obs: &obs, cur_j: None, qs: true, qe: true, now: sess.vnow };
+        let ctx = LineCtx { stim: &stim, w: &w, evs: &evs, obs: &obs, cur_j: None, qs: true, qe: true, now: sess.vnow, injected: false };
         sess.orc.line(&ctx, out);
         sess
     }
@@ -1102,7 +1140,7 @@ impl Sess {
         let w: Vec<&str> = stim.split(' ').collect();
         out.count("stim:adv");
         let qe = self.quiet();
-        let ctx = LineCtx { stim: &stim, w: &w, evs: &evs, obs: &obs, cur_j: None, qs, qe, now: self.vnow };
+        let ctx = LineCtx { stim: &stim, w: &w, evs: &evs, obs: &obs, cur_j: None, qs, qe, now: self.vnow, injected: false };
         self.orc.line(&ctx, out);
         (stim, obs)
     }
@@ -1461,6 +1499,7 @@ impl Sess {
     }
 
     pub fn exec(&mut self, stim: &str, out: &mut Out) -> String {
+        let injected = self.inject.is_some();
         let (evs, qs, qe) = self.exec_raw(stim);
         let obs = show_all(&evs);
         let w: Vec<&str> = stim.split(' ').collect();
@@ -1497,7 +1536,7 @@ impl Sess {
                 _ => {}
             }
         }
-        let ctx = LineCtx { stim, w: &w, evs: &evs, obs: &obs, cur_j: self.cur_j, qs, qe, now: self.vnow };
+        let ctx = LineCtx { stim, w: &w, evs: &evs, obs: &obs, cur_j: self.cur_j, qs, qe, now: self.vnow, injected };
         self.orc.line(&ctx, out);
         obs
     }
@@ -1680,6 +1719,11 @@ fn scripted(out: &mut Out) {
     run(out, 5000, "ncmd-cooldown", &[
         "online", "ncmd rb=0 ts=1", "ncmd rb=x ts=1", "ncmd rb=1 ts=0", "ncmd rb=1 ts=1 alias=1", "ncmd rb=1 ts=1", "ncmd rb=1 ts=1", "adv 6000",
         "ncmd rb=1 ts=1", "nrebirth",
+    ]);
+    // only an NCMD request starts the cooldown: a manual rebirth (application call) does not
+    run(out, 5000, "ncmd-cooldown-manual-rebirth", &[
+        "online", "reg 1", "enable 1", "nrebirth", "ncmd rb=1 ts=1", "nrebirth", "ncmd rb=1 ts=1", "adv 6000", "nrebirth", "ncmd rb=1 ts=1",
+        "offline", "online", "adv 6000", "nrebirth", "drebirth 1", "ncmd rb=1 ts=1",
     ]);
     run(out, 1_000_000_000, "ncmd-cooldown-huge", &["online", "ncmd rb=1 ts=1", "adv 6000", "ncmd rb=1 ts=1", "nrebirth"]);
     // a held node callback blocks the node's state progression: events queue up behind it
